@@ -358,7 +358,26 @@ class Sandbox:
         job = self.project.open_job(json.loads(json.dumps(self.uni.sp_of[j])))
         job.statepoint = json.loads(json.dumps(self.uni.sp_of[j2]))
 
-    def create_view(self, a, prefix=None):
+    def spell_ids(self, ids, spell):
+        """the SAME argument `job_ids` (documented: iterable) in another Python spelling; one-shot iterables included"""
+        if spell == "tuple":
+            return tuple(ids)
+        if spell == "set":          # (only used when no order-dependent deviation is open)
+            return set(ids) if getattr(self.uni, "order_free", False) else tuple(ids)
+        if spell == "genexp":
+            return (i for i in ids)
+        if spell == "iter":
+            return iter(ids)
+        if spell == "map":
+            return map(str, ids)
+        if spell == "dictkeys":
+            return dict.fromkeys(ids).keys()
+        if spell == "cursor":       # ids derived lazily from a JobsCursor (listing order = the pinned order = the order of ids)
+            wanted = set(ids)
+            return (job.id for job in self.project.find_jobs() if job.id in wanted)
+        return list(ids)
+
+    def create_view(self, a, prefix=None, spell="list"):
         """a: spec argument record. Directory listing order is pinned to a.ord (the spec's listing order) -> class name | 'ok'"""
         uni = self.uni
         rank = {uni.ids[t]: i for i, t in enumerate(uni.tokens)}
@@ -377,7 +396,7 @@ class Sandbox:
         kw = {"prefix": prefix or self.prefix, "path": uni.path_arg(a["ps"])}
         if a["kind"] == "ids":
             toks = [t for t in uni.tokens if t in a["S"]]
-            kw["job_ids"] = [uni.ids[t] for t in (reversed(toks) if desc else toks)]
+            kw["job_ids"] = self.spell_ids([uni.ids[t] for t in (reversed(toks) if desc else toks)], spell)
         os.listdir = listdir
         try:
             self.project.create_linked_view(**kw)
@@ -387,11 +406,11 @@ class Sandbox:
         finally:
             os.listdir = real_listdir
 
-    def scratch_build(self, a):
+    def scratch_build(self, a, spell="list"):
         """the same call into a fresh sibling directory: the real from-scratch build"""
         self.nscratch += 1
         p = os.path.join(self.root, "scratch%d" % self.nscratch)
-        res, exc = self.create_view(a, prefix=p)
+        res, exc = self.create_view(a, prefix=p, spell=spell)
         obs = self.view(p)
         shutil.rmtree(p, ignore_errors=True)
         return res, exc, obs
